@@ -224,7 +224,7 @@ def _run_line_cases(cases):
 def _pool_map(fn, items, chunk):
     chunks = [items[i:i + chunk] for i in range(0, len(items), chunk)]
     ctx = multiprocessing.get_context("fork")
-    with ctx.Pool(min(16, max(1, len(chunks)))) as pool:
+    with ctx.Pool(min(16, max(1, len(chunks))), initializer=common.limit_worker) as pool:
         return pool.map(fn, chunks)
 
 
@@ -345,7 +345,7 @@ def check(prop: str) -> int:
             cases, summ = _tlc_cases("MC_codec_msgs", lambda c: c.replace("PLen = 2", f"PLen = {plen}"), workdir)
             rep.add_tlc(f"MC_codec_msgs PLen={plen}", summ, {"cases_emitted": len(cases)})
             ctx = multiprocessing.get_context("fork")
-            with ctx.Pool(16) as pool:
+            with ctx.Pool(16, initializer=common.limit_worker) as pool:
                 results = pool.map(_run_msg_cases, [(cases[i:i + 400], True) for i in range(0, len(cases), 400)])
         else:
             term = "TermQuick" if tier == "quick" else "TermAll"
@@ -372,7 +372,7 @@ def check(prop: str) -> int:
         maxlen = 30 if tier == "quick" else 200
         jobs = [(common.seed() * 1000 + k + (0 if prop == "C01" else 500), nrand // 16, maxlen) for k in range(16)]
         ctx = multiprocessing.get_context("fork")
-        with ctx.Pool(16) as pool:
+        with ctx.Pool(16, initializer=common.limit_worker) as pool:
             rcases = [c for part in pool.map(_run_random, jobs) for c in part]
         rcases = gray_cases + rcases
         rejected, states = _validate_random(rcases, workdir, 8 if tier == "quick" else 16)
